@@ -34,10 +34,15 @@ type c11Case struct {
 	Reset bool `json:"reset,omitempty"`
 	// FollowEmpty: FollowPaths present but empty
 	FollowEmpty bool `json:"followempty,omitempty"`
+	// Order (composite only): which permutation of the sub-roots the constructor is handed (0 = ascending)
+	Order int `json:"order,omitempty"`
 }
 
 func (c c11Case) String() string {
 	s := fmt.Sprintf("tree=%s include=%q exclude=%q follow=%q under=%s", c.Tree, c.Include, c.Exclude, c.Follow, c.Under)
+	if c.Order != 0 {
+		s += fmt.Sprintf(" sub-roots-handed-over-in-permutation#%d", c.Order)
+	}
 	if c.Reset {
 		s += " reset+reuse"
 	}
@@ -57,7 +62,7 @@ func buildView(c c11Case, dir string) (fsutil.FS, string, error) {
 	case "mem":
 		base = memfs.New(c.Tree)
 	case "multi":
-		if base, err = compositeOf(c.Tree); err != nil {
+		if base, err = compositeOf(c.Tree, c.Order); err != nil {
 			return nil, "", err
 		}
 	default:
@@ -122,7 +127,7 @@ func buildView(c c11Case, dir string) (fsutil.FS, string, error) {
 }
 
 // compositeOf: every top-level directory of the tree becomes a sub-root of a composite (its own in-memory FS).
-func compositeOf(t fsmodel.Tree) (fsutil.FS, error) {
+func compositeOf(t fsmodel.Tree, order int) (fsutil.FS, error) {
 	var dirs []fsutil.Dir
 	for _, n := range t {
 		if strings.Contains(n.Path, "/") || n.Kind != fsmodel.Dir {
@@ -137,7 +142,16 @@ func compositeOf(t fsmodel.Tree) (fsutil.FS, error) {
 		}
 		dirs = append(dirs, fsutil.Dir{Stat: memfs.StatOf(n, nil), FS: memfs.New(sub)})
 	}
-	return fsutil.SubDirFS(dirs)
+	// the order-th permutation of the list (factorial number system)
+	var perm []fsutil.Dir
+	rest := append([]fsutil.Dir{}, dirs...)
+	for k := len(rest); k > 0; k-- {
+		i := order % k
+		order /= k
+		perm = append(perm, rest[i])
+		rest = append(rest[:i], rest[i+1:]...)
+	}
+	return fsutil.SubDirFS(perm)
 }
 
 // c11MultiTree: three sub-roots (one name a string prefix of another) holding directories of equal base names, a
@@ -511,6 +525,12 @@ func runC11(r *evid.Run) {
 		for _, in := range patternLists(2, mp) {
 			for _, ex := range patternLists(1, mp) {
 				cases = append(cases, c11Case{Tree: multi, Include: in, Exclude: ex, Under: "multi"})
+				if len(in)+len(ex) <= 1 {
+					// the constructor sorts what it is handed: every order of the three sub-roots
+					for o := 1; o < 6; o++ {
+						cases = append(cases, c11Case{Tree: multi, Include: in, Exclude: ex, Under: "multi", Order: o})
+					}
+				}
 			}
 		}
 	}
